@@ -41,6 +41,14 @@ Proof.
     f_equal. apply IH, E.
 Qed.
 
+Lemma slice_split {A} (l : list A) a b c : a <= b -> b <= c -> slice l a c = slice l a b ++ slice l b c.
+Proof.
+  intros Hab Hbc. unfold slice.
+  replace (c - a) with ((b - a) + (c - b)) by lia.
+  rewrite firstn_add_app. f_equal.
+  rewrite skipn_skipn'. replace (b - a + a) with b by lia. reflexivity.
+Qed.
+
 Lemma skipn_S_of_cons {A} (l : list A) p x rest : skipn p l = x :: rest -> skipn (S p) l = rest.
 Proof.
   revert l; induction p as [|p IH]; intros l H.
